@@ -3,6 +3,7 @@
 package vtime
 
 import (
+	"sync/atomic"
 	"time"
 
 	"github.com/keep-network/keep-core/pkg/verifshim/vsched"
@@ -36,9 +37,21 @@ func Date(y int, m Month, d, h, mi, s, ns int, l *Location) Time {
 	return time.Date(y, m, d, h, mi, s, ns, l)
 }
 
+// offset is the adjustable clock of *sequential* harnesses: outside a scheduled vsched
+// execution Now() returns Epoch+offset (zero unless a harness calls SetOffset, so the
+// constant-Epoch behaviour other harnesses rely on is unchanged). Atomic because
+// instrumented code may read the clock from several goroutines.
+var offset atomic.Int64
+
+// SetOffset sets the sequential clock to Epoch+d (used when no scheduler is active).
+func SetOffset(d Duration) { offset.Store(int64(d)) }
+
+// Offset returns the current sequential clock offset.
+func Offset() Duration { return Duration(offset.Load()) }
+
 func Now() Time {
 	if !vsched.Active() {
-		return Epoch
+		return Epoch.Add(Duration(offset.Load()))
 	}
 	return Epoch.Add(Duration(vsched.Now()))
 }
